@@ -44,6 +44,10 @@ known("C18", "C18-R2-narrow-shift", "RecordMsg.expandComponents/uint32(x.Compres
       "uint32(x.CompressedSpeedDistance[2]<<4) shifts the uint8 before widening: the top nibble of the 12-bit compressed distance is lost",
       "compressed_speed_distance bytes {0x00, 0x00, 0xF0}: the distance component should be 0xF00 (raw), the expression yields 0x00")
 
+known("C18", "C18-R2-byte-array-source", "RecordMsg.expandComponents/csd-distance-half",
+      "same defect as the narrow shift above, seen by the value rule: the distance half of compressed_speed_distance is not bits 12..23 of the little-endian value whenever byte 2 has bits above the low nibble (uint8 shifted before widening)",
+      "bytes {0x00, 0x00, 0x12}: distance component is 0x20, should be 0x120")
+
 # D15: +90 degrees exactly
 known("C17", "C17-R2-guard-intervals", "NewLatitude(1073741824)",
       "NewLatitude rejects 2^30 semicircles (exactly +90 degrees, which is not outside +-90 degrees): the upper guard is > MaxInt32/2 = 2^30-1; -2^30 (-90 degrees) is accepted. Documented and table-tested behaviour of the repository (latlng_test.go pins NewLatitude(MaxInt32/2+1) as invalid), so a repair would edit the pinned suite",
